@@ -78,6 +78,13 @@ def run(ctx):
     reqs.append(dict(base, nodes=[N("", "x", plats=["darwin/arm64"]), N("", "t")], edges=[[0, 1]], patterns=["//..."]))
     reqs.append(dict(base, nodes=[N("", "x", plats=["darwin/arm64"]), N("", "t")], edges=[], patterns=["//..."]))
     reqs.append(dict(base, nodes=[N("p", "a"), N("p2", "a"), N("p/q", "a")], edges=[], patterns=["//p/..."]))
+    # `testonly` is a dependency-visibility tag, not test-ness: a tagged non-test target is built by `grog build`, not by `grog test`
+    # (unless a selected test depends on it)
+    T = lambda pkg, name, tags=(): {"pkg": pkg, "name": name, "target": True, "tags": list(tags), "platforms": [], "bin": False}
+    tn = [T("pkg", "lib"), T("pkg", "fixture", ["testonly"]), T("pkg", "lib_test"), T("tools", "golden_gen", ["testonly"]), T("tools", "x_test", ["testonly", "no-cache"])]
+    for typ in ("test", "no_test", "all"):
+        for pats in (["//..."], ["//tools:golden_gen"], ["//pkg/..."], ["//tools:all"]):
+            reqs.append(dict(base, nodes=tn, edges=[[0, 2], [1, 2]], patterns=pats, type=typ))
     impl = ctx.impl(reqs)
     if impl is None:
         return
@@ -201,7 +208,10 @@ def gen_cli_case(rng):
         deps.setdefault(b, []).append(a)
     is_test = lambda i: nodes[i]["name"].endswith("test")
     # analysis rejects a non-test target depending (through aliases) on a test target: drop such edges
-    es = [(a, b) for a, b in es if not (nodes[b]["target"] and not is_test(b) and is_test(resolve(nodes, deps, a)))]
+    test_only = lambda i: "testonly" in nodes[i]["tags"]
+    # ... and a target that is neither a test nor tagged `testonly` depending (through aliases) on a `testonly` target
+    es = [(a, b) for a, b in es if not (nodes[b]["target"] and not is_test(b) and
+                                        (is_test(resolve(nodes, deps, a)) or (test_only(resolve(nodes, deps, a)) and not test_only(b))))]
     req["edges"] = [list(e) for e in es]
     cmd = rng.choice(["build", "build", "test"])
     req["type"] = "no_test" if cmd == "build" else "test"
